@@ -24,6 +24,26 @@ def vp_full(vp):
             and vp["luma_excursion"] >= 1 and vp["color_diff_excursion"] >= 1 and vp["frame_width"] >= 0 and vp["frame_height"] >= 0)
 
 
+# what the explain() methods of these exceptions need of their constructor arguments (C02, second sentence): each converts the
+# stored index with the preset enumeration (or looks it up in the preset table), which fails for a value outside it - so the
+# index must have passed the 'defined preset' check before a version check may report it
+
+
+def _members(enum_or_table):
+    return " or ".join("a0 == %d" % int(m) for m in sorted(int(x) for x in enum_or_table))
+
+
+from vc2_data_tables import (PRESET_FRAME_RATES, PresetSignalRanges, PresetColorSpecs, PresetColorPrimaries,  # noqa: E402
+                             PresetColorMatrices, PresetTransferFunctions)
+
+raise_requires(PresetFrameRateNotSupportedByVersion, _members(PRESET_FRAME_RATES), "explain() looks the index up in PRESET_FRAME_RATES")
+raise_requires(PresetSignalRangeNotSupportedByVersion, _members(PresetSignalRanges), "explain() calls PresetSignalRanges(index)")
+raise_requires(PresetColorSpecNotSupportedByVersion, _members(PresetColorSpecs), "explain() calls PresetColorSpecs(index)")
+raise_requires(PresetColorPrimariesNotSupportedByVersion, _members(PresetColorPrimaries), "explain() calls PresetColorPrimaries(index)")
+raise_requires(PresetColorMatrixNotSupportedByVersion, _members(PresetColorMatrices), "explain() calls PresetColorMatrices(index)")
+raise_requires(PresetTransferFunctionNotSupportedByVersion, _members(PresetTransferFunctions), "explain() calls PresetTransferFunctions(index)")
+
+
 # (record_bitstream_start / record_bitstream_finish: contracts in contracts/c20_decoder_io.py, with the rest of decoder/io.py)
 
 
